@@ -32,15 +32,17 @@ STAGES = {
             ('send-2x2-b2-render', 'Session', cfg(RENDERKINDS='{"failMid"}', CAPSETS='{%s}' % ALLCAPS,
                                                    CLASSES='{"t4", "p5", "drop", "x3"}')),
             ('send-2x2-b1-transport', 'Session', cfg(BUDGET='1', CAPSETS='{{}}', CLASSES='{"wfail", "cwfail", "drop"}')),
+            # every positive reply of the server - the acknowledgement of the end of data too - is a multi-line reply
+            ('send-2x1-b1-multiline-ok', 'Session', cfg(MAXR='1', BUDGET='1', CAPSETS='{{}}', CLASSES='{"p5", "t4"}', VARIANTS='{"multiok"}')),
             ('send-2x1-b2-transport', 'Session', cfg(MAXR='1', BUDGET='2', CAPSETS='{{}}', CLASSES='{"wfail", "cwfail", "p5"}')),
             ('send-2x1-b1-allrender', 'Session', cfg(MAXR='1', BUDGET='1', CAPSETS='{{}}',
-                                                      RENDERKINDS='{"fail0", "failMid", "failEOF", "failAtt", "failAttEOF", "failSign", "failEmptyErr", "failShortErr"}')),
+                                                      RENDERKINDS='{"fail0", "failMid", "failEOF", "failAtt", "failAttEOF", "failSign", "failEmptyErr", "failShortErr", "failMidSigned"}')),
             ('dialandsend-2x1-b1', 'Session', cfg(OP='"DialAndSend"', MAXR='1', BUDGET='1', RENDERKINDS='{"failMid"}',
                                                   CAPSETS='{{}}')),
         ],
         'thorough': [
             ('send-3x2-b3-render', 'Session', cfg(N='3', BUDGET='3', RENDERKINDS='{"failMid"}', CAPSETS='{{}}')),
-            ('send-2x2-b2-allrender', 'Session', cfg(RENDERKINDS='{"fail0", "failMid", "failEOF", "failAtt", "failAttEOF", "failSign", "failEmptyErr", "failShortErr"}',
+            ('send-2x2-b2-allrender', 'Session', cfg(RENDERKINDS='{"fail0", "failMid", "failEOF", "failAtt", "failAttEOF", "failSign", "failEmptyErr", "failShortErr", "failMidSigned"}',
                                                       CAPSETS='{{}}', CLASSES='{"t4", "p5", "drop", "x3"}')),
             ('dialandsend-2x2-b2', 'Session', cfg(OP='"DialAndSend"', RENDERKINDS='{"failMid"}', CAPSETS='{{}}')),
         ],
@@ -50,6 +52,8 @@ STAGES = {
             # messages without recipients in a batch (refused locally, nothing on the wire)
             ('send-3x1-b1-no-recipients', 'Session', cfg(N='3', MAXR='1', MINR='0', BUDGET='1', CAPSETS='{{}}')),
             # a reply that arrives after the client gave up waiting for it (the silent server answers three timeouts later)
+            # every positive reply of the server is a multi-line reply (RFC 5321 4.2.1 allows it for any reply)
+            ('send-2x2-b1-multiline-ok', 'Session', cfg(BUDGET='1', CAPSETS='{{}, {"8BITMIME", "DSN"}}', CLASSES='{"p5", "drop"}', VARIANTS='{"multiok"}')),
             ('send-2x1-b1-late-reply', 'Session', cfg(N='2', MAXR='1', BUDGET='1', CAPSETS='{{}}', CLASSES='{"stall"}', VARIANTS='{"latereply"}')),
             ('send-2x2-b2', 'Session', cfg(CAPSETS='{%s, {}}' % ALLCAPS)),
             ('send-caps-dsn-8bit', 'Session', cfg(N='2', MAXR='1', BUDGET='1', ENC8='BOOLEAN',
